@@ -37,7 +37,7 @@ m = {
     "hooks": {
         "guard": "verif",
         "enable": "go build -tags verif (the harness under /verif/harness is built with -tags verif against /repo via a replace directive)",
-        "baseline_off_cmd": "cd /repo && go test -mod=mod -vet=off -count=1 -timeout 25m ./...",
+        "baseline_off_cmd": "cd /repo && env -u GOPROXY -u GOFLAGS go test -mod=mod -json -vet=off -count=1 -timeout 25m ./...",
         "source_commits": HOOK_COMMITS,
         "add_only": True,
     },
